@@ -4,7 +4,7 @@
    fixes/C28-prefetch-status-extent-and-empty-start.diff.  Environment = prefetch threads + wire +
    server, as labelled steps (send / register extent / deliver with a short-read choice) taken in
    any order the schedule oracles say. *)
-From PV Require Import Bytes C28 C28_proofs.
+From PV Require Import Bytes C28 C28_gen C28_proofs.
 Open Scope Z_scope.
 
 (* every buffered entry (o |-> d) equals the file's bytes at o, after any sequence of reader
@@ -64,15 +64,36 @@ Theorem C28_readv_requests_bounded :
 Proof. exact readv_plan_bounded. Qed.
 Print Assumptions C28_readv_requests_bounded.
 
-(* C28_terminates, proved in part.  Full statement: "from every reachable state every maximal run of
-   enabled environment steps is finite and ends in a state in which the _read_prefetch wait loop
-   exits" (= (a) each step consumes a finite measure, (b) some step is enabled while work is
-   outstanding, (c) the loop exits when none is).  Proved here: (a); every answered request -- data
-   or status -- releases its extent and sets _prefetch_done when it was the last one; once
-   _prefetch_done is set the loop never blocks; _start_prefetch clears _prefetch_done only together
-   with new work.  (b) is exercised by the watchdog oracle only. *)
-Theorem C28_terminates_partial :
-  (forall file s l s', env_step file s l = Some s' -> (measure s' < measure s)%nat) /\
+(* C28_terminates: deadlock freedom of the reader / prefetch threads / wire interleaving.
+   For every state reachable from a freshly opened file by any reader operations (read / seek /
+   prefetch / readv with cap = None (0) or >= 1) and any environment steps:
+   (a) while anything is outstanding (a chunk not yet requested, a request not yet registered, a reply
+       not yet consumed) some environment step is enabled: the oldest reply can be dispatched (its
+       extent is registered), or the registration that _async_response spins on can happen, or a
+       send is enabled (a capped prefetch thread is not starved); the step leads to a reachable state
+       again and consumes the measure;
+   (b) every environment step, in whatever order, consumes the measure: at most `measure s` happen;
+   (c) with nothing outstanding the _read_prefetch wait loop does not wait.
+   Hence every maximal run of the environment is finite and ends where the reader proceeds.
+   (That the real threads and the real wire take only such steps -- in particular that a reply is not
+   consumed before its extent is registered, which the code ensures by spinning -- is tied by the
+   direct drive and the delayed-registration runs of the harness, and by C28_source_shape.) *)
+Theorem C28_terminates :
+  forall file acts n s,
+    Forall action_ok acts -> Forall action_caps_ok acts ->
+    do_actions file (init_state n) acts = Some s ->
+    (work s -> forall k, 1 <= k ->
+       exists l s', env_step file s l = Some s' /\ lab_ok l /\ (measure s' < measure s)%nat /\
+                    good file s' /\ live_ok s') /\
+    (forall l s', env_step file s l = Some s' -> (measure s' < measure s)%nat) /\
+    (prefetching s = true -> ~ work s -> forall sched, snd (wait_loop file sched s) <> WBlocked).
+Proof. exact terminates. Qed.
+Print Assumptions C28_terminates.
+
+(* every answered request -- data or status -- releases its extent and sets _prefetch_done when it was
+   the last one; once _prefetch_done is set the loop never blocks; _start_prefetch clears
+   _prefetch_done only together with new work *)
+Theorem C28_extent_release :
   (forall d e dn sv num r d' e' dn' sv',
       async_response d e dn sv num r = Some (d', e', dn', sv') ->
       dget e' num = None /\ (e' = [] -> dn' = true) /\ (length e' <= length e)%nat) /\
@@ -80,9 +101,33 @@ Theorem C28_terminates_partial :
   (forall s cs cap, pdone (start_prefetch s cs cap) = false ->
                     pdone s = false \/ unsent (start_prefetch s cs cap) <> []).
 Proof.
-  exact (conj env_step_measure (conj async_releases (conj wait_done_never_blocks start_prefetch_work))).
+  exact (conj async_releases (conj wait_done_never_blocks start_prefetch_work)).
 Qed.
-Print Assumptions C28_terminates_partial.
+Print Assumptions C28_extent_release.
+
+(* the shapes and the constant the model takes from sftp_file.py, as found in the source by gen/c28.py
+   on this run (Gen/C28_gen.v): _async_response spins until the extent is registered, releases the
+   extent of every answered request, stores data at the extent's offset, sets _prefetch_done when no
+   extent is left, does not save an EOF status; _start_prefetch ignores an empty list and sets both
+   flags; _prefetch_thread records (offset, length) under the request's number;
+   MAX_REQUEST_SIZE >= 1, and readv at the real constant *)
+Theorem C28_source_shape :
+  src_async_spins_until_registered = true /\ src_async_releases_extent = true /\
+  src_async_stores_at_extent_offset = true /\ src_async_done_when_no_extent_left = true /\
+  src_async_eof_status_not_saved = true /\ src_start_prefetch_ignores_empty = true /\
+  src_start_prefetch_sets_flags = true /\ src_thread_registers_request_extent = true.
+Proof. exact src_shape. Qed.
+Print Assumptions C28_source_shape.
+
+Theorem C28_readv_at_source_constant :
+  forall file bufsize orcss s chunks cap s1 outs,
+    good file s -> Forall (Forall orc_ok) orcss ->
+    Forall (fun c => 0 <= fst c /\ 0 <= snd c) chunks ->
+    readv file src_max_request_size bufsize orcss s chunks cap = Some (s1, outs) ->
+    good file s1 /\
+    Forall2 (fun c out => out = OData (slice file (fst c) (snd c)) \/ out = OBlocked) chunks outs.
+Proof. exact readv_exact_src. Qed.
+Print Assumptions C28_readv_at_source_constant.
 
 (* the code before the repair (async_response_v0: a STATUS response keeps its extent): an EOF status
    leaves _prefetch_done false with nothing outstanding, and the reader then waits forever under
@@ -113,3 +158,8 @@ Example C28_example_run :
   option_map snd (readv file 16 0 [[o; o; o; o; o; o; o; o; o; o; o; o]; [o; o; o; o; o; o; o; o; o; o; o; o]; [o]] (init_state 1) [(10, 25); (30, 20); (45, 5)] 0)
   = Some [OData (slice file 10 25); OData (slice file 30 20); OData []].
 Proof. vm_compute. reflexivity. Qed.
+
+(* a reachable state with work outstanding (prefetch of a 40-byte file, MAX 16, cap 1) *)
+Example C28_example_work :
+  exists s, do_actions [] (init_state 1) [APrefetch 16 40 1] = Some s /\ work s /\ prefetching s = true.
+Proof. eexists. split; [reflexivity|]. split; [left; discriminate|reflexivity]. Qed.
